@@ -9,14 +9,24 @@ use crate::{
     util::*,
     RawSyntaxKind, Syntax,
 };
-#[cfg(cstree_verif)]
-use crate::verif::{AtomicU32, RwLock, UnsafeCell};
 #[cfg(not(cstree_verif))]
 use parking_lot::RwLock;
 #[cfg(not(cstree_verif))]
-use std::cell::UnsafeCell;
-#[cfg(not(cstree_verif))]
-use std::sync::atomic::AtomicU32;
+use std::{
+    cell::UnsafeCell,
+    fmt,
+    hash::{Hash, Hasher},
+    iter,
+    ptr::{self, NonNull},
+    sync::{
+        atomic::{AtomicU32, Ordering},
+        Arc as StdArc,
+    },
+};
+// verification build: the synchronisation primitives are replaced by instrumented ones
+#[cfg(cstree_verif)]
+use crate::verif::{AtomicU32, RwLock, UnsafeCell};
+#[cfg(cstree_verif)]
 use std::{
     fmt,
     hash::{Hash, Hasher},
